@@ -335,7 +335,7 @@ func genInvocation(r *core.RNG, cmd string) invocation {
 	case 0:
 		iv.Out = "/u/out.gb"
 	case 1:
-		iv.Out = pickS(r, []string{"/u/out.fasta", "/u/out.txt", "/u/nodir/out.gb"})
+		iv.Out = pickS(r, outNames)
 	}
 	return iv
 }
@@ -358,6 +358,12 @@ func neighbourOf(r *core.RNG, pool []string, cur string) string {
 	}
 	return pickS(r, pool)
 }
+
+// outNames are output names whose extension a command may derive something
+// from (the sequence format today; a delimiter, a layout tomorrow): what is
+// derived from the name must be in the cache key like what is given by option.
+var outNames = []string{"/u/out.fasta", "/u/out.txt", "/u/nodir/out.gb", "/u/out.csv", "/u/out.tsv", "/u/out.fa", "/u/out.genbank",
+	"/u/out.gbk", "/u/out.tab", "/u/out.json", "/u/out.gff", "/u/out", "/u/out.CSV", "/u/NC_001422.1.fasta"}
 
 // litFile names the stock file whose whole content is the literal argument
 // (@...) itself.
@@ -496,7 +502,7 @@ func mutateOne(r *core.RNG, a invocation) (invocation, string) {
 				return v, "format"
 			}
 		case "output":
-			o := pickS(r, []string{"", "/u/out.gb", "/u/out.fasta", "/u/out2.gb"})
+			o := pickS(r, append([]string{"", "", "/u/out.gb", "/u/out.fasta", "/u/out2.gb"}, outNames...))
 			if o != a.Out {
 				v.Out = o
 				return v, "output"
@@ -551,6 +557,8 @@ func buildOptTargets() {
 		if !tableOut[c] {
 			optTargets = append(optTargets, optTarget{c, "format", ""})
 		}
+		// the output name: stdout, or names with different extensions
+		optTargets = append(optTargets, optTarget{c, "output", ""})
 	}
 }
 
@@ -662,6 +670,19 @@ func genOptionPair(r *core.RNG, sc *cliScenario) *cliScenario {
 		for try := 0; b.Fmt == a.Fmt && try < 10; try++ {
 			b.Fmt = pickS(r, append(formats, ""))
 		}
+	case "output":
+		// the same invocation, once to one output name and once to another
+		// (or to stdout): whatever a command derives from the name it writes
+		// to is part of what it computes
+		pool := append([]string{"", "/u/out.gb"}, outNames...)
+		a.Out = pickS(r, pool)
+		if r.Chance(1, 2) {
+			a.Fmt = "" // nothing overrides what the name says
+		}
+		b = a.clone()
+		for try := 0; b.Out == a.Out && try < 10; try++ {
+			b.Out = pickS(r, pool)
+		}
 	case "value":
 		pool := optPools[t.cmd][t.flag]
 		if i := find(&a); i < 0 {
@@ -749,7 +770,7 @@ func mutateInvocation(r *core.RNG, a invocation) (invocation, string) {
 				}
 			}
 		case 4: // output target
-			o := pickS(r, []string{"", "/u/out.gb", "/u/out.fasta", "/u/out2.gb"})
+			o := pickS(r, append([]string{"", "", "/u/out.gb", "/u/out.fasta", "/u/out2.gb"}, outNames...))
 			if o != a.Out {
 				v.Out = o
 				return v, "output"
